@@ -246,19 +246,21 @@ class Recorder:
                             "has": attr is not None, "cls": _cls(v), "stored": _cps(stored),
                             "got": _cps(v) if isinstance(v, str) else []})
 
-    def result(self, r, k=0):
+    def result(self, r, k=0, thin=False):
+        """thin: result-level accessors only (full text, metadata, to_json) -- used by the quick tier for the
+        property-value cases, whose documents differ from the fully recorded ones in the properties only."""
         who = f"result[{k}]"
         full = self.text(who + ".get_full_text", r.get_full_text)
         ok, us = self.call(who + ".iterate_units", lambda: list(r.iterate_units()))
-        if ok:
+        if ok and not thin:
             for n, u in enumerate(us):
                 self.unit(f"{who}.unit[{n}]", u)
         ok, ims = self.call(who + ".iterate_images", lambda: list(r.iterate_images()))
-        if ok:
+        if ok and not thin:
             for n, im in enumerate(ims):
                 self.image(f"{who}.image[{n}]", im)
         ok, tbs = self.call(who + ".iterate_tables", lambda: list(r.iterate_tables()))
-        if ok:
+        if ok and not thin:
             for n, t in enumerate(tbs):
                 self.table(f"{who}.table[{n}]", t)
         ok, md = self.call(who + ".get_metadata", r.get_metadata)
@@ -337,6 +339,29 @@ def units_rtf(units):
     return ("{\\rtf1\\ansi\\ansicpg1252\\deff0{\\fonttbl{\\f0\\fswiss Helvetica;}}{\\info{\\title " + esc
             + "}{\\author zq0009x}}\n\\pard\\plain zq0001x " + esc + " zq0002x\\par\n"
             + "\\trowd\\cellx3000\\cellx6000\\intbl zq0003x\\cell " + esc + "\\cell\\row\\pard\\par}").encode("ascii")
+
+
+def doc_images(doc):
+    k = doc.get("kind", "flow")
+    if k == "flow":
+        return doc.get("images") or []
+    if k == "deck":
+        return [i for sl in doc["slides"] for i in sl.get("images", [])]
+    if k == "book":
+        return [i for sh in doc["sheets"] for i in sh.get("images", [])]
+    return []
+
+
+IMAGE_DAMAGE = {"zerohdr": lambda d: d[:12] + b"\0" * 30 + d[42:],          # dimensions in the header wiped
+                "garbage": lambda d: b"\x00\x01not-an-image" * 3,            # payload of no known image format
+                "empty": lambda d: b""}
+
+
+def damage_images(doc, how):
+    """A well-formed container whose picture payloads are not (recognisable) images: accepted input."""
+    for i in doc_images(doc):
+        i["data"] = IMAGE_DAMAGE[how](i["data"])
+    return doc
 
 
 def enrich(doc):
@@ -424,7 +449,7 @@ def run_job(job):
                 return out
             rec = Recorder(roots, props=job.get("props"), fmt=hdr["fmt"], units=job.get("units"))
             for k, r in enumerate(results):
-                rec.result(r, k)
+                rec.result(r, k, thin=bool(job.get("thin")))
             out["events"] = rec.ev
             out["nres"] = len(results)
         except _Timeout:
